@@ -83,8 +83,27 @@ var slotConsts = func() []slotConst {
 		{"fourq", "fourq.N", hexInt("29cbc14e5e0a72f05397829cbc14e5dfbd004dfe0f79992fb2540ec7768ce7"), []int{32}, false},
 		{"prio3", "prio3.field64", hexInt("ffffffff00000001"), []int{8}, false},
 		{"prio3", "prio3.field128", hexInt("ffffffffffffffe40000000000000001"), []int{16}, false},
+		// SIDH/SIKE primes 2^e2·3^e3 − 1 (public keys are three Fp2 elements) and the CSIDH-512 prime
+		{"sidh", "sidh.p434", sub(new(big.Int).Mul(pow2(216), new(big.Int).Exp(big.NewInt(3), big.NewInt(137), nil)), big.NewInt(1)), []int{55}, true},
+		{"sidh", "sidh.p503", sub(new(big.Int).Mul(pow2(250), new(big.Int).Exp(big.NewInt(3), big.NewInt(159), nil)), big.NewInt(1)), []int{63}, true},
+		{"sidh", "sidh.p751", sub(new(big.Int).Mul(pow2(372), new(big.Int).Exp(big.NewInt(3), big.NewInt(239), nil)), big.NewInt(1)), []int{94}, true},
+		{"csidh", "csidh.p512", csidhPrime(), []int{64}, false},
 	}
 }()
+
+// csidhPrime is 4·ℓ1⋯ℓ74 − 1 with the 73 smallest odd primes and 587 (CSIDH-512).
+func csidhPrime() *big.Int {
+	prod := big.NewInt(4)
+	count := 0
+	for l := int64(3); count < 73; l += 2 {
+		if big.NewInt(l).ProbablyPrime(8) {
+			prod.Mul(prod, big.NewInt(l))
+			count++
+		}
+	}
+	prod.Mul(prod, big.NewInt(587))
+	return prod.Sub(prod, big.NewInt(1))
+}
 
 // packed coefficient patterns: every coefficient of a packed polynomial equal to q-1, q, q+1
 type slotPattern struct {
@@ -132,6 +151,7 @@ var familyKeywords = []struct{ kw, family string }{
 	{"yber", "kyber"}, {"YBER", "kyber"}, {"mlkem", "kyber"}, {"ML-KEM", "kyber"}, {"wing", "kyber"}, {"WING", "kyber"},
 	{"ilithium", "dilithium"}, {"ML-DSA", "dilithium"}, {"mldsa", "dilithium"},
 	{"prio3", "prio3"}, {"fp64", "prio3"}, {"fp128", "prio3"},
+	{"csidh", "csidh"}, {"sidh", "sidh"}, {"sike", "sidh"}, {"SIKE", "sidh"}, {"SIDH", "sidh"},
 }
 
 func familiesOf(e *Entry) map[string]bool {
@@ -145,8 +165,10 @@ func familiesOf(e *Entry) map[string]bool {
 }
 
 type slotValue struct {
-	name string
-	b    []byte
+	name  string
+	b     []byte
+	exact bool // the modulus itself (not a neighbour)
+	flags bool // top-bit flags set
 }
 
 // slotValues expands one modulus into the byte strings written into a slot of width w.
@@ -171,12 +193,12 @@ func slotValues(name string, m *big.Int, w int) []slotValue {
 		for _, f := range free {
 			b := append([]byte{}, be...)
 			b[0] |= f
-			out = append(out, slotValue{fmt.Sprintf("%s/%s/be/top|%02x", name, v.tag, f), b})
+			out = append(out, slotValue{fmt.Sprintf("%s/%s/be/top|%02x", name, v.tag, f), b, v.tag == "m", f != 0})
 			l := make([]byte, w)
 			for i := range b {
 				l[w-1-i] = b[i]
 			}
-			out = append(out, slotValue{fmt.Sprintf("%s/%s/le/top|%02x", name, v.tag, f), l})
+			out = append(out, slotValue{fmt.Sprintf("%s/%s/le/top|%02x", name, v.tag, f), l, v.tag == "m", f != 0})
 		}
 	}
 	return out
@@ -217,45 +239,62 @@ func slotOffsets(n, w int, lenFields [][2]int, all bool, maxOff int) []int {
 	return offs
 }
 
-// slotInputs returns the boundary-value inputs for one valid encoding of e.
-func slotInputs(e *Entry, v []byte) (kinds []string, inputs [][]byte) {
+// slotCase is one overwrite of a valid encoding.
+type slotCase struct {
+	prio int
+	kind string
+	off  int
+	b    []byte
+}
+
+// Priorities (the per-entry budget of the quick tier cuts the list from the end):
+//
+//	0  the entry's own families and moduli: the modulus itself, every flag combination, both byte orders, every slot
+//	1  the entry's own families: m-1, m+1, 2m without flags; packed-coefficient patterns
+//	2  all other families: the modulus itself without flags at the first slot, after a tag byte and at the last slot
+//	3  the entry's own families: m-1, m+1, 2m with flags
+//	4  all other families: neighbours and flag combinations
+func slotCases(e *Entry, n int) []slotCase {
 	fam := familiesOf(e)
 	maxOff := 24
-	if e.Cost > 4 {
-		maxOff = 6 // expensive calls: the slots nearest to both ends
-	}
 	if vlib.Thorough() {
 		maxOff = 256
 	}
-	n := len(v)
-	put := func(kind string, off int, b []byte) {
-		in := append([]byte{}, v...)
-		copy(in[off:], b)
-		kinds = append(kinds, fmt.Sprintf("slot/%s@%d", kind, off))
-		inputs = append(inputs, in)
-	}
+	var cases []slotCase
 	do := func(name string, m *big.Int, widths []int, double, relevant bool) {
 		for _, w := range widths {
 			if w > n {
 				continue
 			}
 			vals := slotValues(name, m, w)
+			prio := func(sv slotValue) int {
+				switch {
+				case relevant && sv.exact:
+					return 0
+				case relevant && !sv.flags:
+					return 1
+				case !relevant && sv.exact && !sv.flags:
+					return 2
+				case relevant:
+					return 3
+				}
+				return 4
+			}
 			for _, off := range slotOffsets(n, w, e.LenFields, relevant, maxOff) {
 				for _, sv := range vals {
-					put(sv.name, off, sv.b)
+					cases = append(cases, slotCase{prio(sv), sv.name, off, sv.b})
 				}
 			}
 			if double && 2*w <= n {
 				for _, off := range slotOffsets(n, 2*w, e.LenFields, relevant, maxOff) {
 					for _, sv := range vals {
-						put(sv.name+"x2", off, append(append([]byte{}, sv.b...), sv.b...))
+						cases = append(cases, slotCase{prio(sv), sv.name + "x2", off, append(append([]byte{}, sv.b...), sv.b...)})
 					}
 				}
 			}
 		}
 	}
 	for _, c := range slotConsts {
-		// the families of the entry's own arithmetic go into every slot, all others into the first and last one
 		do(c.name, c.m, c.widths, c.double, fam[c.family])
 	}
 	for i, m := range e.Moduli {
@@ -271,9 +310,9 @@ func slotInputs(e *Entry, v []byte) (kinds []string, inputs [][]byte) {
 			for i := range b {
 				b[i] = p.unit[i%len(p.unit)]
 			}
-			put(p.name, off, b)
+			cases = append(cases, slotCase{1, p.name, off, b})
 		}
-		// the whole encoding, the encoding after a 32/64-byte seed or hash prefix, and single polynomials
+		// the whole encoding, the encoding after / before a 32/64-byte seed or hash, and single polynomials
 		fill(0, n)
 		for _, skip := range []int{32, 64} {
 			if n > skip+len(p.unit) {
@@ -287,41 +326,49 @@ func slotInputs(e *Entry, v []byte) (kinds []string, inputs [][]byte) {
 			}
 		}
 	}
-	return kinds, inputs
+	sort.SliceStable(cases, func(i, j int) bool { return cases[i].prio < cases[j].prio })
+	return cases
 }
 
-// slotClass shortens "slot/<constant>/<variant>…@off" to "slot/<constant>" for the histogram.
+// slotClass shortens "<constant>/<variant>…" to "slot/<constant>" for the histogram.
 func slotClass(kind string) string {
-	parts := strings.SplitN(kind, "/", 3)
-	if len(parts) >= 2 {
-		return parts[0] + "/" + parts[1]
+	if i := strings.Index(kind, "/"); i > 0 {
+		kind = kind[:i]
 	}
-	return kind
+	return "slot/" + kind
 }
 
-// slotSweep is the boundary-value part of Sweep.
-func slotSweep(d *directTB, e *Entry) int {
+// slotSweep is the boundary-value part of Sweep. It returns the number of cases run and cut.
+func slotSweep(d *directTB, e *Entry) (run, cut int) {
 	if e.Valid == nil {
-		return 0
+		return 0, 0
 	}
+	budget := vlib.N(1200, 40000) / max(1, e.Cost)
 	nv := max(1, e.NValid)
-	if !vlib.Thorough() && nv > 3 {
-		nv = 3
-	}
-	total := 0
 	seenLen := map[int]bool{}
+	var vs [][]byte
 	for vi := 0; vi < nv; vi++ {
 		v := e.Valid(vi)
-		if !vlib.Thorough() && seenLen[len(v)] && vi > 0 && e.Cost > 1 {
-			continue // expensive entry: one encoding per length
+		if !vlib.Thorough() && seenLen[len(v)] {
+			continue // quick: one valid encoding per length
 		}
 		seenLen[len(v)] = true
-		kinds, inputs := slotInputs(e, v)
-		for i := range inputs {
-			d.replay = map[string]interface{}{"entry": e.Name, "input": fmt.Sprintf("%x", inputs[i]), "kind": kinds[i]}
-			probe(d, e, slotClass(kinds[i]), inputs[i])
-			total++
+		vs = append(vs, v)
+	}
+	for _, v := range vs {
+		cases := slotCases(e, len(v))
+		b := budget / len(vs)
+		if len(cases) > b {
+			cut += len(cases) - b
+			cases = cases[:b]
+		}
+		for _, c := range cases {
+			in := append([]byte{}, v...)
+			copy(in[c.off:], c.b)
+			d.replay = map[string]interface{}{"entry": e.Name, "input": fmt.Sprintf("%x", in), "kind": fmt.Sprintf("slot/%s@%d", c.kind, c.off)}
+			probe(d, e, slotClass(c.kind), in)
+			run++
 		}
 	}
-	return total
+	return run, cut
 }
